@@ -383,6 +383,8 @@ def replay(rep, payload):
     if "clistream" in c:
         before = len(rep.violations)
         cli_stream_stage(rep, [{"docs": c["clistream"]["docs"]}])
+        for v in rep.violations[before:]:
+            print("disagreement:", v.get("what") if isinstance(v, dict) else v)
         return 1 if len(rep.violations) > before else 0
     if "rewrite" in c:
         o = run_rewrite(c["rewrite"])
